@@ -367,7 +367,9 @@ func checkC20Weights(c C20Case) (o Outcome) {
 	return o
 }
 
-var reReturnLine = regexp.MustCompile(`^(\d{4}-\d{2}-\d{2}) 00:00:00 \+0000 UTC: (-?[0-9.]+|NaN|[+-]Inf)%$`)
+// one line per period: the period's end date first, the return in percent last (what stands between them - a
+// time of day, a separator - is not part of the statement)
+var reReturnLine = regexp.MustCompile(`^(\d{4}-\d{2}-\d{2})\b.*?[ :\t](-?[0-9.]+|NaN|[+-]?Inf) ?%$`)
 
 func checkC20Returns(c C20Case) (o Outcome) {
 	dir, cleanup := knutio.Materialise(c.files())
@@ -498,7 +500,7 @@ func checkC20Returns(c C20Case) (o Outcome) {
 		if !flows && unchanged {
 			// nothing happened to the portfolio in this period: 0 %, whatever it is worth (also zero or negative)
 			nFlowFree++
-			if lines[i].raw != "0.0" && lines[i].raw != "-0.0" {
+			if lines[i].pct != 0 /* also NaN */ {
 				o.Violation = V("idle-period-return", "knut %v\nperiod ending %s has no flows and unchanged prices (value %s), return %s%%, expected 0.0%%\n%s\n--journal--\n%s", args, p.End, v1.FloatString(4), lines[i].raw, clip(r.Stdout, 800), clip(c.Text, 2500))
 				return o
 			}
